@@ -96,6 +96,19 @@ CHECKS.update({
          "DESIGN.md §4 C17"),
 })
 
+CHECKS.update({
+ "C06": ("E1-choice-tree",
+         "bounded-exhaustive enumeration of directive/source line sequences x symbol sets and of boolean expressions compiled by the real compiler against a reference preprocessor",
+         "All line sequences (well nested or not) up to the length bound over a 14-form alphabet x all 8 subsets of {A,B,C} given with -D, all expression trees and token strings up to the bound, layout variants (indentation, blanks after '#', trailing comments, CRLF, missing final newline), 2- and 3-file sets: for well-formed files the definitions reaching the parser are exactly the selected lines at their original rows and columns (and an E033 probe diagnostic sits on the original position), ill-formed files give a located E002, symbols never leak between files.",
+         "trusted: the reference preprocessor in mc/src/props/c06.rs; the expression grammar (! only before the first term, && and || equal precedence, left associative) is taken as the language definition; E002 counts are not demanded",
+         "DESIGN.md §4 C06"),
+ "C13": ("E1-choice-tree",
+         "complete product of lint templates x suppression placements x arguments (options parsed by the real clap definition) with a reference level function and a differential oracle",
+         "32 templates (every lint kind on every element kind it can arise on) x 8 placements x 5 arguments x {alone, next to an error}, all placement pairs, and DuplicateFile on real files: a lint is Allowed exactly when named (or All) by an accepted --allow, the file attribute of its file, the element concerned or an enclosing definition; with and without the suppression the diagnostic list, spans and the AST are identical except for the targeted levels and the attribute itself; errors keep level Error.",
+         "trusted: the reference level function in mc/src/props/c13.rs; an allow on an enclosing member (operation / enumerator) is not judged because the statement says 'definition'; the generator-request differential is covered by C08's attribute fidelity, exit status by C07",
+         "DESIGN.md §4 C13"),
+})
+
 NOT_YET = {}
 
 def main():
